@@ -429,3 +429,20 @@ CLAIMS["C20"]["text"] = CLAIMS["C20"]["text"] + (
     "the next top-level poll (through both levels). The naive statement 'every leaf of every live inner instance has been "
     "polled when the nest is Pending' is refuted in the file (chain outer; zip over merge: a buffered row holds the merge back) "
     "- the real code behaves the same way.")
+
+_POLL = (" The poll loops themselves (FcProps/KTieGrpPoll.lean): FutureGroup::poll_next_inner and StreamGroup::poll_next_inner, translated "
+         "from the current source on every run (scan over the key set with its break, the gate is_pending && clear_ready, the child "
+         "poll through the slot's sub-waker, the bookkeeping of each answer, the key clean-up), are proved to refine one Eng.poll group "
+         "of the model - theorems TieGrpF.poll_tie / TieGrpS.poll_tie (+ poll_tie_inv): no panic, the returned Poll value is the "
+         "model's outcome, the resulting group and environment read as the model's state (readiness, capacity, states, slab, keys, "
+         "queue, scripts, handed wakers) with the same event trace; hypotheses: the group is well-formed (WfG), its keys are distinct "
+         "occupied slab entries below the capacity (GoodKeys, C11's structural invariant), handed sub-wakers lie below the capacity "
+         "(HandedOk; refuted without), members answer like futures / streams without panicking.")
+CLAIMS["C11"]["text"] = CLAIMS["C11"]["text"] + _POLL
+CLAIMS["C12"]["text"] = CLAIMS["C12"]["text"] + _POLL
+CLAIMS["C06"]["text"] = CLAIMS["C06"]["text"] + (
+    " Static tie (FcProps/KTieRaceV.lean, KTieIdx.lean): Race::poll of Vec<Fut>::race() (src/future/race/vec.rs), translated from the "
+    "current source on every run, is proved to refine one Eng.poll race of the model (TieRaceV.poll_tie: no panic, same outcome, same "
+    "offset / done flag, same scripts, handed wakers and event trace; hypotheses: at least one child, Indexer.max = number of "
+    "children, children answer like futures without panicking, not yet done), and Indexer::iter yields the rotated order Fix.rot. "
+    "The array and tuple variants remain tied differentially.")
